@@ -152,6 +152,13 @@ def end_to_end(run, outs, paths, datasets, hashseeds, spec):
                                        cells=[[e[pre + "chars"][x], e[pre + "chars"][y]] for x, y in e[pre + "cscorer_asym"]],
                                        values=[e[pre + "cscorer"][a][b], e[pre + "cscorer"][b][a]]))
                     reported = True
+            for v in o["e2e"].get("scorer_variants", []):
+                if v["asymmetric"] and not reported:
+                    fails += 1
+                    run.violation(dict(base, kind="the language-specific scorer is not symmetric (%s with non-default "
+                                       "keywords)" % v["class"], hashseed=h, keywords=v["keywords"],
+                                       cells_and_values=v["asymmetric"]))
+                    reported = True
             if o["repeat"] and not reported:
                 fails += 1
                 r = o["repeat"][0]
@@ -204,6 +211,9 @@ def kernel_cases(outs, paths, hashseeds, scorer_seeds):
                 cases["scorer"].append(mk(k["scorer"]))
             if h == hashseeds[0] and "scorer_partial" in k:
                 cases["scorer"].append(dict(mk(k["scorer_partial"]), dataset=name + "_partial"))
+            if h == hashseeds[0]:
+                for vi, sv in enumerate(k.get("scorer_variants", [])):
+                    cases["scorer"].append(dict(mk(sv), dataset="%s_variant%d" % (name, vi)))
     return cases
 
 
